@@ -4,6 +4,12 @@ Local Open Scope N_scope.
 
 Inductive expected := XOk (vals : list bytes) | XErr | XPanic.
 
+(** the per-message rewrites of [Model.PgWire.rw], visible to the generated case files (they import this module only) *)
+Notation RwKeep := Acra.Model.PgWire.RwKeep (only parsing).
+Notation RwQuery := Acra.Model.PgWire.RwQuery (only parsing).
+Notation RwBind := Acra.Model.PgWire.RwBind (only parsing).
+Notation RwRow := Acra.Model.PgWire.RwRow (only parsing).
+
 Inductive op :=
 | MyInt (data : bytes)
 | MyStr (data : bytes)
@@ -23,6 +29,7 @@ Inductive op :=
 | PgParseReplace (stream q : bytes)    (* ReadClientPacket + ReplaceQuery (Parse branch) + Marshal *)
 | PgExecute (data : bytes)             (* NewExecutePacket *)
 | PgSimpleQuery (stream : bytes)       (* ReadClientPacket + GetSimpleQuery *)
+| PgSession (stream : bytes) (rws : list rw)  (* several messages through ONE handler: read, rewrite, send each *)
 | BaEncOct (d : bytes)
 | BaDecOct (d : bytes)
 | BaEncHex (d : bytes)
@@ -74,6 +81,7 @@ Definition run (o : op) : expected :=
              if byte_eqb (p_type p) PG_PARSE_TYPE then replace_parse_query p q else Ok p)
   | PgExecute d => canon (fun '(portal, n) => [portal; be_enc 4 n]) (new_execute_packet d)
   | PgSimpleQuery s => canon (fun q => [q]) (do (p, _) <- read_msg s; get_simple_query p)
+  | PgSession s rws => canon (fun outs => outs) (session rws s)
   | BaEncOct d => XOk [encode_octal d]
   | BaDecOct d => canon (fun x => [x]) (decode_octal d)
   | BaEncHex d => XOk [pg_encode_hex d]
